@@ -85,6 +85,7 @@ class World:
         # UBM's variances, k-means / GMM with or without a convergence threshold
         self.cfg = {"iv_update_sigma": bool(r.rand() < 0.5), "iv_floor": float(r.choice([1e-10, 0.9, 1.2])),
                     # ISV / JFA given a trained UBM AND the options from which they would build one if they had none
+                    "fa_enroll_iterations": int(r.randint(1, 4)),
                     "fa_ubm_kwargs": [None, dict(n_gaussians=2), dict(n_gaussians=2, max_fitting_steps=3, update_variances=True,
                                                                        update_weights=True)][r.randint(0, 3)]}
 
@@ -195,10 +196,11 @@ class World:
             return em.linear_scoring(models, self.prior, self.stats, 0, True)
         if op in ("FaFit", "FaFitUsingArray"):
             if self.fam == "isv":
-                f = em.ISVMachine(r_U=1, em_iterations=2, ubm=self.prior, random_state=0, ubm_kwargs=self.cfg["fa_ubm_kwargs"])
+                f = em.ISVMachine(r_U=1, em_iterations=2, ubm=self.prior, random_state=0, ubm_kwargs=self.cfg["fa_ubm_kwargs"],
+                                  enroll_iterations=self.cfg["fa_enroll_iterations"])
             else:
                 f = em.JFAMachine(r_U=1, r_V=1, em_iterations=2, ubm=self.prior, random_state=0,
-                                  ubm_kwargs=self.cfg["fa_ubm_kwargs"])
+                                  ubm_kwargs=self.cfg["fa_ubm_kwargs"], enroll_iterations=self.cfg["fa_enroll_iterations"])
             return f.fit(self.lst(form), self.y) if op == "FaFit" else f.fit_using_array(self.arr(form), self.y)
         if op == "FaEnroll":
             return self.machine(m).enroll(self.stats)
